@@ -217,7 +217,7 @@ pub fn run(ctx: &mut Ctx, replay: Option<&[String]>) {
         ctx.emit(&format!("c11 {} {} inf", sm(&d5), name), &one(&d5, root, None), true, &["corpus-pendant-path-on-4-cycle"]);
     }
     let maxd = ctx.scale(12, 20);
-    for k in 0..ctx.scale(400, 6000) {
+    for k in 0..ctx.scale(400, 40000) {
         let (h, fam) = gen_graph(&mut rng, if k % 5 == 0 { maxd } else { 7 });
         let edges = h.iter_all().count();
         // all roots, bounds {0..14, inf}
